@@ -281,7 +281,7 @@ def run_case(case, seed):
                 bad("result", "nonfinite", {"values": short(vals)})
                 continue
             auto_power = algname in ("omitted", "Auto") and (k, which) == (1, "LM")  # Auto picks PowerIteration(tol=1e-6, max_iter=100)
-            tolv = (10 * np.sqrt(1e-12) if power else (1e-4 if auto_power else 1e-7)) * normA
+            tolv = (10 * np.sqrt(1e-12) if power else ((1e-4 if sa else 1e-3) if auto_power else 1e-7)) * normA
             want = want_values(lam, k, which)
             # the moduli must be those of the k extreme eigenvalues and every value a distinct eigenvalue; when the cut splits a
             # complex-conjugate pair (equal moduli) either member is accepted
@@ -318,7 +318,7 @@ def run_case(case, seed):
                 ties = [x for x in lam if abs(abs(x) - abs(want)) <= 1e-9 * max(normA, 1e-300)]  # eigenvalues of the same extreme modulus:
                 want = min(ties, key=lambda x: abs(e - x))  # a complex-conjugate pair of a real matrix, +-r: either member is "the" extreme one
                 loose = algname in ("omitted", "Auto") and which == "LM"
-                if not np.isfinite(e) or abs(e - want) > (10 * np.sqrt(1e-12) if power else (1e-4 if loose else 1e-7)) * normA:
+                if not np.isfinite(e) or abs(e - want) > (10 * np.sqrt(1e-12) if power else ((1e-4 if sa else 1e-3) if loose else 1e-7)) * normA:
                     vio.append({"key": f"C10|{fn.__name__}|value|{algname}|{fam}", "what": f"{fn.__name__} wrong ({algname}, {fam})",
                                 "detail": {"got": e, "want": complex(want), "n": n}})
             except Exception as ex:
